@@ -155,6 +155,41 @@ fn max_free(e: &E, depth: usize) -> Option<usize> {
     }
 }
 
+// Visit unresolved hole occurrences: (id, binder depth relative to the root, shift).
+fn hole_occurrences(e: &E, depth: usize, f: &mut dyn FnMut(u32, usize, usize)) {
+    match e {
+        E::Hole(id, sh, None) => f(*id, depth, *sh),
+        E::Hole(_, sh, Some(c)) => {
+            if depth >= *sh {
+                hole_occurrences(c, depth - *sh, f);
+            }
+        }
+        E::Lam(_, _, d, b) | E::Pi(_, _, d, b) => {
+            hole_occurrences(d, depth, f);
+            hole_occurrences(b, depth + 1, f);
+        }
+        E::App(a, b) | E::Bin(_, a, b) => {
+            hole_occurrences(a, depth, f);
+            hole_occurrences(b, depth, f);
+        }
+        E::Let(defs, body) => {
+            let n = defs.len();
+            for (_, a, d) in defs {
+                hole_occurrences(a, depth + n, f);
+                hole_occurrences(d, depth + n, f);
+            }
+            hole_occurrences(body, depth + n, f);
+        }
+        E::Neg(a) => hole_occurrences(a, depth, f),
+        E::If(c, t, e2) => {
+            hole_occurrences(c, depth, f);
+            hole_occurrences(t, depth, f);
+            hole_occurrences(e2, depth, f);
+        }
+        _ => {}
+    }
+}
+
 struct Case {
     pattern: E,
     instance: E,
@@ -205,7 +240,8 @@ fn run_case_inner(ctx: &mut Ctx, c: &Case) {
         return;
     }
     // mirrors with solutions (safe now: no cycles)
-    let mut m = Mirror::new();
+    let known: Vec<(usize, u32)> = cells.iter().map(|(id, c)| (Rc::as_ptr(c) as *const u8 as usize, *id)).collect();
+    let mut m = Mirror::with_ids(&known);
     let pe = m.go(&p);
     let qe = m.go(&q);
     // (b) scope of each recorded solution
@@ -215,13 +251,27 @@ fn run_case_inner(ctx: &mut Ctx, c: &Case) {
         let Some(content) = content else { continue };
         solved += 1;
         let Some(info) = c.holes.iter().find(|h| h.id == *id) else { continue };
-        let ce = Mirror::new().go(&content);
+        let ce = Mirror::with_ids(&known).go(&content);
         if let Some(mx) = max_free(&ce, 0) {
             let limit = info.home_depth + c.nctx;
             if mx >= limit {
                 viol(ctx, "solution-escapes-scope", &format!("hole ?{id} was written where {limit} variables are in scope but its solution {} mentions variable index {mx}", clip(&ce.show(), 300)), c);
                 return;
             }
+        }
+        // an unresolved hole inside a solution must still live in the scope it was written in
+        let mut bad: Option<String> = None;
+        hole_occurrences(&ce, 0, &mut |hid, depth, shift| {
+            if let Some(other) = c.holes.iter().find(|h| h.id == hid) {
+                let implied = (info.home_depth + depth) as i64 - shift as i64;
+                if implied != other.home_depth as i64 && bad.is_none() {
+                    bad = Some(format!("inside the solution of ?{id}, hole ?{hid} occurs with shift {shift} under {depth} binders, which places it in a scope of {implied} variables; it was written in a scope of {}", other.home_depth));
+                }
+            }
+        });
+        if let Some(b) = bad {
+            viol(ctx, "hole-rescoped-inside-solution", &b, c);
+            return;
         }
         ctx.count("solutions-scope-checked");
     }
@@ -315,7 +365,44 @@ fn punched_case(r: &mut Rng, t: &E, variant: u64) -> Case {
         1 => E::App(bx(E::Lam("w".into(), false, bx(E::Int), bx(e_shift(t, 0, 1).unwrap_or_else(|| t.clone())))), bx(E::Lit(0.into()))),
         _ => E::Let(vec![("w".into(), E::Int, E::Lit(0.into()))], bx(e_shift(t, 0, 1).unwrap_or_else(|| t.clone()))),
     };
+    // sometimes the instance carries holes of its own (different cells)
+    let mut instance = instance;
+    let mut both_sides = false;
+    if variant % 3 == 0 && r.chance(1, 3) {
+        for i in 0..1 + r.usize(2) {
+            let n = subterm_count(&instance);
+            let target = r.usize(n);
+            let id = 100 + i as u32;
+            let mut taken = None;
+            let mut counter = 0;
+            let want_shift = r.below(3) as usize;
+            let home = RefCell::new(0usize);
+            let newi = punch(
+                &instance,
+                target,
+                &|depth| {
+                    let sh = want_shift.min(depth);
+                    *home.borrow_mut() = depth - sh;
+                    E::Hole(id, sh, None)
+                },
+                &mut counter,
+                0,
+                &mut taken,
+            );
+            if let Some((sub, _)) = &taken {
+                if sub.has_hole() {
+                    continue;
+                }
+            }
+            instance = newi;
+            holes.push(HoleInfo { id, home_depth: *home.borrow() });
+            both_sides = true;
+        }
+    }
     let (pattern, instance) = if r.chance(1, 2) { (pattern, instance) } else { (instance, pattern) };
+    if both_sides {
+        return Case { pattern, instance, holes, nctx: 0, kind: "holes-on-both-sides" };
+    }
     Case { pattern, instance, holes, nctx: 0, kind: ["punched-vs-original", "punched-vs-beta-expanded", "punched-vs-definition-wrapped"][(variant % 3) as usize] }
 }
 
@@ -353,6 +440,11 @@ fn handmade(idx: u64) -> Option<Case> {
         16 => c(E::Bin(crate::eterm::Op::Add, bx(h(0, 0)), bx(E::Lit(2.into()))), E::Lit(5.into()), vec![hi(0, 0)], 0, "hole-in-arithmetic"),
         17 => c(E::Pi("x".into(), false, bx(h(0, 0)), bx(h(1, 1))), E::Pi("y".into(), false, bx(E::Int), bx(E::Bool)), vec![hi(0, 0), hi(1, 0)], 0, "pi-domain-and-codomain"),
         18 => c(E::Pi("x".into(), false, bx(E::Type), bx(h(0, 1))), E::Pi("y".into(), false, bx(E::Type), bx(v("y", 0))), vec![hi(0, 0)], 0, "scope-escape-dependent-codomain"),
+        // a hole written outside a binder against a term whose hole lives outside that binder too
+        19 => c(lam(h(0, 1)), lam(lam(h(1, 2))), vec![hi(0, 0), hi(1, 0)], 0, "hole-vs-binder-with-outer-hole"),
+        20 => c(lam(h(0, 1)), lam(lam(h(1, 1))), vec![hi(0, 0), hi(1, 1)], 0, "hole-vs-binder-with-inner-hole"),
+        21 => c(h(0, 0), lam(h(1, 1)), vec![hi(0, 0), hi(1, 0)], 0, "hole-vs-binder-with-outer-hole"),
+        22 => c(h(0, 0), lam(h(1, 0)), vec![hi(0, 0), hi(1, 1)], 0, "hole-vs-binder-with-inner-hole"),
         _ => None,
     }
 }
@@ -363,7 +455,7 @@ impl Prop for C12P {
     }
     fn plan(&self, tier: Tier, _seed: u64) -> Plan {
         let mut p = Plan::new(
-            vec![sec("handmade-configurations", 19), sec("punched-terms", tier.pick(20_000, 400_000)), sec("unrelated-pairs", tier.pick(4_000, 80_000))],
+            vec![sec("handmade-configurations", 23), sec("punched-terms", tier.pick(20_000, 400_000)), sec("unrelated-pairs", tier.pick(4_000, 80_000))],
             "1-4 holes (fresh or shared cells, shift 0..3 bounded by the binder depth) punched at arbitrary positions into hole-free well-typed terms from the typed generator, unified against the original, a beta-expanded and a definition-wrapped variant, in both argument orders; pairs of unrelated terms; hand-made occurs-check, scope-escape and shared-cell configurations with and without context parameters; after every successful call the cells are inspected for cycles, scope and consistency; non-trivial = distinct pair on which unify succeeded",
         );
         p.assumptions = vec![
